@@ -175,6 +175,25 @@ func distract(st ref.Stamp, n int) {
 	// days of every year)
 	n = int(((uint64(st.Secs())/86400)*2654435761 + uint64(n)*40503) >> 5 % 1000003)
 	t := st.Secs() + distractOffsets[n%len(distractOffsets)]*86400
+	// every fourth time, where one exists, the day of the same year whose month and day print the same digits when
+	// written without padding or separator (1/11..19 <-> 11/1..9, 1/21..29 <-> 12/1..9): the favourite accident of
+	// string keys
+	if n%4 == 1 {
+		pm, pd := 0, 0
+		switch {
+		case st.M == 11 && st.D <= 9:
+			pm, pd = 1, 10+st.D
+		case st.M == 12 && st.D <= 9:
+			pm, pd = 1, 20+st.D
+		case st.M == 1 && st.D >= 11 && st.D <= 19:
+			pm, pd = 11, st.D-10
+		case st.M == 1 && st.D >= 21 && st.D <= 29:
+			pm, pd = 12, st.D-20
+		}
+		if pm != 0 {
+			t = ref.Stamp{Y: st.Y, M: pm, D: pd, H: st.H, Mi: st.Mi, S: st.S}.Secs()
+		}
+	}
 	lo, hi := ref.Stamp{Y: minYear, M: 1, D: 1}.Secs(), ref.Stamp{Y: maxYear, M: 12, D: 31, H: 23, Mi: 59, S: 59}.Secs()
 	if t < lo || t > hi {
 		t = st.Secs() - distractOffsets[n%len(distractOffsets)]*86400
